@@ -189,3 +189,17 @@ Proof.
   - intros x Hx. unfold upd_phis. destruct (is_phi_out phis x) eqn:E; [reflexivity|].
     rewrite (P1 x (is_phi_out_false phis x E)). apply A. exact Hx.
 Qed.
+
+(* ------------------------------------------------------------------ inversion of a transition *)
+Lemma lstep_inv g lv env b i rest c l s1 : lstep g lv env (b, i :: rest, c) l s1 ->
+  (exists c1, istep lv env i c l c1 /\ s1 = (b, rest, c1)) \/
+  (exists b1 c1, is_jump i = true /\ In b1 (targets lv i c) /\ phi_assign (leading_phis (nth_block g b1)) b c c1 /\
+                 l = LTau /\ s1 = (b1, body (nth_block g b1), c1)).
+Proof.
+  intros H. inversion H as [b0 ins0 rest0 c0 l0 c1 I | b0 ins0 rest0 c0 b1 c1 J T P]; subst.
+  - left. exists c1. split; [exact I | reflexivity].
+  - right. exists b1, c1. split; [exact J | split; [exact T | split; [exact P | split; reflexivity]]].
+Qed.
+
+Lemma lstep_nil g lv env b c l s1 : lstep g lv env (b, [], c) l s1 -> False.
+Proof. intros H. inversion H. Qed.
